@@ -799,6 +799,74 @@ class World(object):
                     f.fwd.append(c)
         st.note = ("script", expect, k0 == self.impl_key())
 
+    # ---- C10: differential check against a freshly initialised plugin (does not change the world)
+    C10_PROBES = ["G1 X50 Y40", "G1 X70 Y65 E1", "G1 E-1 F1800", "G1 E0 F1800", "M117 probe", "M204 S7", "G1 Z2",
+                  "G91", "G20", "G10", "@ExcludeRegion enable", "@ExcludeRegion disable"]
+    _c10_cache = {}
+
+    def _c10_check(self, st):
+        snap = self.snapshot()
+        used = World.restore(snap, self.cfg)
+        used._event("PRINT_STARTED", Step(None))
+        # a freshly initialised plugin given the same regions and settings
+        sv = pickle.loads(pickle.dumps(self.sv))
+        pm = H.PluginManager()
+        H.install_uuid(H.Uuid(1000))
+        fresh = H.new_plugin(sv, pm)
+        H.set_user(False)
+        for r in self.m_regions:
+            fresh.on_api_command("addExcludeRegion", dict(r))
+        fresh.on_event(H.Events.PRINT_STARTED, {})
+        self.install()
+        ku, kf = plugin_key_text(used.plugin), plugin_key_text(fresh)
+        if ku != kf:
+            diff = [(a, b) for a, b in zip(ku.split(","), kf.split(",")) if a != b][:3]
+            self.viol("C10 after print-started the plugin state differs from a freshly initialised plugin with the "
+                      "same regions and settings: %r" % (diff,))
+        st.tags.add("reset-compared")
+        cache_key = hashlib.blake2b(ku.encode(), digest_size=16).digest()
+        if cache_key in World._c10_cache:
+            return
+        # differential probes: every program of <= depth commands after homing gives identical hook output
+        depth = self.cfg.get("probe_depth", 2)
+        import itertools
+        fsnap = pickle.dumps(dict((k, v) for k, v in fresh.__dict__.items() if k != "_settings"), -1)
+        usnap = used.snapshot()
+
+        def run(plugin, prog):
+            comm = H.Comm()
+            outs = []
+            for c in ("G28",) + prog:
+                if c.startswith("@"):
+                    parts = c[1:].split(None, 1)
+                    comm.sent = []
+                    plugin.handleAtCommandQueuing(comm, "queuing", parts[0], parts[1] if len(parts) > 1 else "", tags=set())
+                    outs.append(("at", tuple(comm.sent)))
+                else:
+                    g, sc = H.gcode_and_subcode_for_cmd(c)
+                    try:
+                        outs.append(("g", repr(plugin.handleGcodeQueuing(comm, "queuing", c, None, g, sc, tags=set()))))
+                    except Exception as e:   # noqa
+                        outs.append(("exc", type(e).__name__))
+            outs.append(("script", repr(plugin.handleScriptHook(comm, "gcode", "afterPrintDone"))))
+            return outs
+        n = 0
+        for d in range(1, depth + 1):
+            for prog in itertools.product(self.C10_PROBES, repeat=d):
+                up = World.restore(usnap, self.cfg).plugin
+                fp = H.PKG.ExcludeRegionPlugin.__new__(H.PKG.ExcludeRegionPlugin)
+                fp.__dict__.update(pickle.loads(fsnap))
+                fp._settings = _shared_settings()
+                a, b = run(up, prog), run(fp, prog)
+                n += 1
+                if a != b:
+                    self.viol("C10 after print-started the program %r gives %r on the used plugin and %r on a freshly "
+                              "initialised one" % (("G28",) + prog, a, b))
+        World._c10_cache[cache_key] = n
+        st.tags.add("probed")
+        self.mon["c10_probe_programs"] = 0      # (count is reported through tags only; state stays unchanged)
+        del self.mon["c10_probe_programs"]
+
     # ------------------------------------------------------------------------------ always-on checks
     def _registry_checks(self, st):
         """The reference registry/lifecycle must agree with the implementation after every step.  These
@@ -1065,6 +1133,175 @@ class World(object):
                 if not same_key:
                     self.viol("C15 script hook %s changed the plugin state without contributing" % f.cmd)
 
+    # ---- C14: @-commands switch exclusion off and on
+    def _mon_c14(self, st):
+        for f in st.feeds:
+            if not f.active:
+                continue
+            if f.kind == "gcode":
+                if not f.enabled0:
+                    st.tags.add("move-while-disabled" if f.is_move else "cmd-while-disabled")
+                    if f.is_move and f.cmd not in f.fwd:
+                        self.viol("C14 exclusion is disabled but the move %r was suppressed: %r" % (f.cmd, f.result),
+                                  self._detail(f))
+                if f.episode1 and f.code == "M117":
+                    self.mon["c14_last_m117"] = f.cmd
+                if f.closing or f.opening:
+                    self.mon.pop("c14_last_m117", None) if f.closing else None
+            elif f.kind == "at":
+                streaming = len(st.ev) > 3 and st.ev[3]
+                acts = [] if streaming else self._at_reference(st.ev[1], st.ev[2])
+                if not acts:
+                    st.tags.add("at-ignored-streaming" if streaming else "at-unmatched")
+                    if f.sent:
+                        self.viol("C14 %r matches no configured action%s but commands were sent: %r"
+                                  % (f.cmd, " (streaming to SD)" if streaming else "", f.sent))
+                    if f.k0 != f.k1:
+                        self.viol("C14 %r matches no configured action%s but changed the filter state"
+                                  % (f.cmd, " (streaming to SD)" if streaming else ""))
+                elif f.closing:
+                    st.tags.add("disable-mid-episode")
+                    if not f.sent:
+                        self.viol("C14 disable inside an episode sent nothing (episode not closed)")
+                    want = self.mon.pop("c14_last_m117", None)
+                    if want is not None and f.sent.count(want) != 1:
+                        self.viol("C14 disable inside an episode: deferred %r expected exactly once in %r" % (want, f.sent))
+                else:
+                    st.tags.add("at-" + "+".join(acts))
+                    if f.sent:
+                        self.viol("C14 %r outside an episode sent commands: %r" % (f.cmd, f.sent))
+
+    # ---- C06: deferred codes and scripts exactly once per episode
+    def _c06_modes(self):
+        return {e["gcode"]: e["mode"] for e in self.sv.ext}
+
+    def _c06_scripts(self):
+        def split(txt):
+            if txt is None:
+                return []
+            out = []
+            for line in txt.replace("\r\n", "\n").replace("\r", "\n").split("\n"):
+                line = line.split(";", 1)[0].strip(" ")
+                if line:
+                    out.append(line)
+            return out
+        return split(self.sv.enter), split(self.sv.exit)
+
+    def _c06_account_close(self, f, emitted, how):
+        """Every command emitted when an episode ends must be explained: flush, exit script, re-sync."""
+        pending = self.mon.get("c06_pending", [])
+        enter, exit_ = self._c06_scripts()
+        i = 0
+        for code, mode, val in pending:
+            if i >= len(emitted):
+                self.viol("C06 episode ended by %s: deferred %s command missing from %r (expected %d deferred commands)"
+                          % (how, code, emitted, len(pending)), self._detail(f))
+            got = emitted[i]
+            if mode in ("first", "last"):
+                if got != val:
+                    self.viol("C06 episode ended by %s: expected the %s instance %r at position %d, got %r (emitted %r)"
+                              % (how, mode, val, i, got, emitted), self._detail(f))
+            else:
+                gc, _, words, _ = read(got)
+                gotd = {}
+                for l, v in words:
+                    gotd[l] = v
+                if gc != code or gotd != dict(val) or len(words) != len(gotd):
+                    self.viol("C06 episode ended by %s: merged %s should carry the latest values %r once, got %r"
+                              % (how, code, {k: (None if v is None else float(v)) for k, v in val}, got), self._detail(f))
+            i += 1
+        if emitted[i:i + len(exit_)] != exit_:
+            self.viol("C06 episode ended by %s: expected the exit script %r after %d deferred commands, emitted %r"
+                      % (how, exit_, len(pending), emitted), self._detail(f))
+        i += len(exit_)
+        rest = emitted[i:]
+        for c in rest:
+            gc, _, words, junk = read(c)
+            ok = (gc == "G92" and [l for l, _ in words] == ["E"]) or \
+                 (gc in ("G0", "G1") and all(l in "FXYZ" for l, _ in words)) or \
+                 (gc in ("G0", "G1") and all(l in "FE" for l, _ in words))
+            if not ok or c in exit_ or c in enter:
+                self.viol("C06 episode ended by %s: unexplained command %r after the exit script (emitted %r; "
+                          "%d deferred, exit script %r)" % (how, c, emitted, len(pending), exit_), self._detail(f))
+        xy_moves = sum(1 for c, a0, a1 in f.atrace if a1.xy() != a0.xy())
+        if xy_moves > 1:
+            self.viol("C06 episode ended by %s: %d forwarded commands move X/Y (stale re-sync commands?): %r"
+                      % (how, xy_moves, emitted), self._detail(f))
+        self.mon["c06_pending"] = []
+
+    def _mon_c06(self, st):
+        modes = self._c06_modes()
+        enter, exit_ = self._c06_scripts()
+        if st.ev[0] == "NEWPRINT" or (st.note and st.note[0] == "event" and
+                                      st.note[1] in END_EVENTS + ("PRINT_STARTED", "FILE_SELECTED")):
+            self.mon["c06_pending"] = []
+        for f in st.feeds:
+            if not f.active:
+                continue
+            if f.kind == "gcode":
+                if f.opening:
+                    st.tags.add("enter-script" if enter else "episode-opened")
+                    if f.fwd[:len(enter)] != enter:
+                        self.viol("C06 episode opened by %r: expected the enter script %r first, forwarded %r"
+                                  % (f.cmd, enter, f.fwd), self._detail(f))
+                    for c in f.fwd[len(enter):]:
+                        gc, _, words, _ = read(c)
+                        ok = (gc == "G92" and [l for l, _ in words] == ["E"]) or gc == "G10" or \
+                             (gc in ("G0", "G1") and all(l in "FE" for l, _ in words))
+                        if not ok or c in enter or c in exit_:
+                            self.viol("C06 episode opened by %r: unexplained command %r after the enter script "
+                                      "(forwarded %r)" % (f.cmd, c, f.fwd), self._detail(f))
+                    self.mon["c06_pending"] = []
+                elif f.closing:
+                    st.tags.add("flush-by-move")
+                    self._c06_account_close(f, f.fwd, "the move %r" % f.cmd)
+                elif f.episode1:
+                    for c in f.fwd:
+                        if c in enter or c in exit_:
+                            self.viol("C06 script line %r emitted inside an episode (for %r)" % (c, f.cmd), self._detail(f))
+                    mode = modes.get(f.code)
+                    if mode is not None:
+                        st.tags.add("deferred:" + mode)
+                        if f.fwd:
+                            self.viol("C06 %s-mode code %r was not withheld inside an episode: %r" % (mode, f.cmd, f.fwd),
+                                      self._detail(f))
+                        pend = list(self.mon.get("c06_pending", []))
+                        idx = [i for i, p in enumerate(pend) if p[0] == f.code]
+                        if mode == "first":
+                            if not idx:
+                                pend.append((f.code, mode, f.cmd))
+                        elif mode == "last":
+                            if idx:
+                                pend.pop(idx[0])
+                            pend.append((f.code, mode, f.cmd))
+                        elif mode == "merge":
+                            cur = {}
+                            if idx:
+                                cur = dict(pend.pop(idx[0])[2])
+                            for l, v in f.words:
+                                cur[l] = v
+                            pend.append((f.code, mode, tuple(cur.items())))
+                        self.mon["c06_pending"] = pend
+                else:
+                    for c in f.fwd:
+                        if c != f.cmd and (c in enter or c in exit_):
+                            self.viol("C06 script line %r emitted outside any episode (for %r)" % (c, f.cmd), self._detail(f))
+            elif f.kind == "at":
+                if f.closing:
+                    st.tags.add("flush-by-disable")
+                    self._c06_account_close(f, f.sent, "%r" % f.cmd)
+                elif f.sent:
+                    self.viol("C06 %r sent %r although no episode was open" % (f.cmd, f.sent))
+            elif f.kind == "script":
+                if f.closing:
+                    st.tags.add("flush-by-print-end")
+                    r = f.result
+                    if not (isinstance(r, tuple) and len(r) == 2 and isinstance(r[0], list)):
+                        self.viol("C06 print ended inside an episode but the script hook returned %r" % (r,))
+                    self._c06_account_close(f, list(r[0]), "the end of the print")
+                elif f.result is not None:
+                    self.viol("C06 script hook contributed %r although no episode was open" % (f.result,))
+
     # ------------------------------------------------------------------------------ reporting
     def _detail(self, f):
         return dict(cmd=f.cmd, result=repr(f.result), forwarded=f.fwd, sent=f.sent)
@@ -1098,6 +1335,14 @@ class World(object):
         if st.msgs:
             d["notifications"] = len(st.msgs)
         return d
+
+
+def no_relative_disable(w, ev):
+    """Scenario guard: a disable @-command is not issued while an episode is open in relative positioning
+    (known finding D17 is explored in its own dedicated scenario)."""
+    if ev[0] == "AT" and w.episode and not w.f["abs"] and "disable" in w._at_reference(ev[1], ev[2]):
+        return False
+    return True
 
 
 def G_lattice(g, step=Fr(1, 4), cap=400):
